@@ -7,11 +7,11 @@
    take the block cipher as Section variables  E D : key -> block -> block  with the hypotheses
      length (E k b) = 16, length (D k b) = 16          (proved here, unconditionally: aes_enc_length ...)
      D k (E k b) = b  for 16-byte b                    (AES is a permutation per key)
-   The last one is NOT proved for this Gallina AES in this file: it is an assumption about the block
-   cipher, validated by the FIPS-197 known answers below (both directions), by the exhaustive
-   S-box inverse check [isbox_sbox], and by every correspondence run against crypto/aes.
-   The S-box tables are checked against their definition (inverse in GF(2^8) + affine map) in
-   Prim/Aes256Facts.v. *)
+   The first two are proved in this file, the third in Prim/Aes256Inv.v (aes_dec_enc: for every key of
+   16/24/32 bytes and every 16-byte block, both made of values below 256), byte ranges in
+   Prim/Aes256Facts.v, which also checks the S-box tables against their definition (inverse in GF(2^8) +
+   affine map).  What remains an assumption is only that this Gallina function IS crypto/aes; it is
+   validated by the FIPS-197 known answers below (both directions) and by every correspondence run. *)
 From Coq Require Import String.
 From Coq Require Import ZArith NArith List Lia ZifyN ZifyNat ZifyBool Bool.
 From MTV Require Import Base.Bytes Prim.Hex Prim.Xor.
